@@ -17,6 +17,7 @@ import AutomataVerif.Proofs.Product
 import AutomataVerif.Proofs.PyShape
 import AutomataVerif.Proofs.ExpandValid
 import AutomataVerif.Proofs.Rename
+import AutomataVerif.Proofs.Complete
 
 namespace AV.Props.C04
 open AV AV.DFA
@@ -163,6 +164,120 @@ example : (match exA.binopPlain .union exB with
            | .error _ => []) = [0, 1, 2, 3, 4, 5] := by decide
 example : (match exA.binopPlain .union exB with
            | .ok R => R.renumber.validate
+           | .error e => .error e) = .ok () := by rfl
+
+/-! ## 3. `to_complete` -/
+
+/-- **`to_complete` keeps the language and defines every transition.**  For a valid
+duplicate-free `d` and a trap name outside `d.states` (what `_get_trap_state_id` returns, or
+an admissible custom name) the call succeeds; the result is valid, duplicate-free, over the
+same alphabet, every row has every alphabet symbol (so every (state, symbol) has a
+transition to a state), and it gives the verdict of `d` on every word.  The result is `d`
+itself when no row looks partial, and has `allow_partial=False` otherwise.
+
+Note: `validate` does not force transition keys to be states, and `_get_trap_state_id`
+only avoids `states`; if the chosen trap name is a stray transition key, `_to_complete`
+overwrites that row.  This is harmless (no hypothesis `trap ∉ akeys d.trans` is needed):
+targets are states, so a key that is not a state is unreachable. -/
+theorem C04_to_complete (d : AV.DFA σ α) (hd : d.validate = .ok ()) (pd : d.PyShape) (trap : σ)
+    (custom : Bool) (ht : trap ∉ d.states) :
+    ∃ C, d.toComplete trap custom = .ok C ∧ C.validate = .ok () ∧ C.PyShape ∧ C.syms = d.syms ∧
+      C.IsComplete ∧
+      (∀ q ∈ C.states, ∀ a ∈ C.syms, ∃ q', C.step? (some q) a = some q' ∧ q' ∈ C.states) ∧
+      C.allowPartial = (d.allowPartial && !d.looksPartial) ∧
+      ∀ w, C.accepts w = d.accepts w := by
+  have wf := (DFA.validate_eq_ok d).mp hd
+  cases hp : d.looksPartial with
+  | false =>
+    have hc := isComplete_of_not_looksPartial wf pd hp
+    refine ⟨d, toComplete_of_not_partial d trap custom hp, hd, pd, rfl, hc, ?_, by simp, fun _ => rfl⟩
+    intro q hq a ha
+    exact step?_of_isComplete wf hc hq ha
+  | true =>
+    have wf' : (d.toCompleteCore trap).WF := toCompleteCore_wf wf
+    have hc : (d.toCompleteCore trap).IsComplete := isComplete_of_flag wf' rfl
+    refine ⟨d.toCompleteCore trap, toComplete_of_partial d trap custom hp (Or.inr ht),
+      (DFA.validate_eq_ok _).mpr wf', toCompleteCore_pyShape wf pd, rfl, hc, ?_, by simp [toCompleteCore],
+      toCompleteCore_accepts wf ht⟩
+    intro q hq a ha
+    exact step?_of_isComplete wf' hc hq ha
+
+/-- A custom trap name that is already a state is refused with `InvalidStateError` (when a
+trap is needed at all). -/
+theorem C04_to_complete_custom_taken (d : AV.DFA σ α) (trap : σ) (hp : d.looksPartial = true)
+    (ht : trap ∈ d.states) : d.toComplete trap true = .error (.lib .invalidStateError) :=
+  toComplete_custom_taken d trap hp ht
+
+/-- A DFA none of whose rows looks partial is returned unchanged (`self.copy()`), whatever
+the trap argument. -/
+theorem C04_to_complete_unchanged (d : AV.DFA σ α) (trap : σ) (custom : Bool)
+    (hp : d.looksPartial = false) : d.toComplete trap custom = .ok d :=
+  toComplete_of_not_partial d trap custom hp
+
+/-- A valid DFA with a stray transition key `-1` that is not a state: `_get_trap_state_id`
+returns `-1` and `_to_complete` overwrites that row. -/
+def exStray : AV.DFA Int Nat :=
+  { states := [0], syms := [0, 1], trans := [(0, [(0, 0)]), (-1, [(0, 0), (1, 0)])],
+    init := 0, finals := [0], allowPartial := true }
+
+example : exStray.validate = .ok () := by rfl
+example : (-1 : Int) ∉ exStray.states := by decide
+example : (match exStray.toComplete (-1) false with
+           | .ok C => (C.states, C.trans, C.accepts [0, 0], C.accepts [0, 1, 0])
+           | .error _ => ([], [], false, false)) =
+    ([0, -1], [(0, [(0, 0), (1, -1)]), (-1, [(0, -1), (1, -1)])], true, false) := by decide
+example : (match exStray.toComplete (-1) false with
+           | .ok C => C.validate
+           | .error e => .error e) = .ok () := by rfl
+example : exA.toComplete 0 true = .error (.lib .invalidStateError) := by rfl
+example : (match exA.toComplete 7 true with
+           | .ok C => (C.states, C.allowPartial, C.accepts [1], exA.accepts [1], C.accepts [1, 1])
+           | .error _ => ([], true, false, false, true)) = ([0, 1, 7], false, true, true, false) := by decide
+
+/-! ## 4. complement -/
+
+/-- **Complement of a complete DFA** (`minify=False`): valid, duplicate-free, same alphabet,
+and a word is accepted iff all its symbols are alphabet symbols and the operand rejects it
+(words with foreign symbols are in neither language). -/
+theorem C04_complement_complete (c : AV.DFA σ α) (hv : c.validate = .ok ()) (pc : c.PyShape)
+    (hc : c.IsComplete) :
+    c.complementPlain.validate = .ok () ∧ c.complementPlain.PyShape ∧
+      c.complementPlain.syms = c.syms ∧ c.complementPlain.IsComplete ∧
+      c.complementPlain.allowPartial = false ∧
+      ∀ w, c.complementPlain.accepts w = ((w.all fun a => decide (a ∈ c.syms)) && !c.accepts w) := by
+  have wf := (DFA.validate_eq_ok c).mp hv
+  exact ⟨(DFA.validate_eq_ok _).mpr (complementPlain_wf wf hc), complementPlain_pyShape pc, rfl, hc,
+    rfl, complementPlain_accepts wf hc⟩
+
+/-- **Complement of any valid DFA** (`minify=False`; the code completes the operand first
+iff `allow_partial`): the call succeeds and the result is a valid complete DFA over the
+same alphabet whose language is the complement relative to the alphabet. -/
+theorem C04_complement (d : AV.DFA σ α) (hd : d.validate = .ok ()) (pd : d.PyShape) (trap : σ)
+    (ht : trap ∉ d.states) :
+    ∃ R, d.complementFull trap = .ok R ∧ R.validate = .ok () ∧ R.PyShape ∧ R.syms = d.syms ∧
+      R.IsComplete ∧ R.allowPartial = false ∧
+      ∀ w, R.accepts w = ((w.all fun a => decide (a ∈ d.syms)) && !d.accepts w) := by
+  have wf := (DFA.validate_eq_ok d).mp hd
+  unfold complementFull
+  cases hap : d.allowPartial with
+  | false =>
+    simp only [Bool.false_eq_true, if_false]
+    obtain ⟨h1, h2, h3, h4, h5, h6⟩ := C04_complement_complete d hd pd (isComplete_of_flag wf hap)
+    exact ⟨_, rfl, h1, h2, h3, h4, h5, h6⟩
+  | true =>
+    simp only [if_true]
+    obtain ⟨C, hC, hv, hp, hs, hc, _, _, hacc⟩ := C04_to_complete d hd pd trap false ht
+    rw [hC]
+    obtain ⟨h1, h2, h3, h4, h5, h6⟩ := C04_complement_complete C hv hp hc
+    refine ⟨_, rfl, h1, h2, h3.trans hs, h4, h5, fun w => ?_⟩
+    rw [h6 w, hs, hacc w]
+
+example : (match exA.complementFull 2 with
+           | .ok R => (R.states, R.finals, R.accepts [1], R.accepts [1, 1], R.accepts [5])
+           | .error _ => ([], [], false, false, false)) = ([0, 1, 2], [0, 2], false, true, false) := by
+  decide
+example : (match exA.complementFull 2 with
+           | .ok R => R.validate
            | .error e => .error e) = .ok () := by rfl
 
 end AV.Props.C04
